@@ -174,8 +174,22 @@ class Suite:
     informative = False    # True: a pure model disagreement is a note, not a failure
     ctype = None           # Coq type of one case (needed when it cannot be inferred from the literals)
 
+    escalate_cap = 500     # how many further cases the default escalation may run
+
     def gen(self, tier, rng):
         raise NotImplementedError
+
+    def escalate(self, tier, rng, disagreeing):
+        """second round, only when the correspondence of this suite broke and no explored input violates the statement: by default a
+        sample of the thorough tier's cases (a suite may override it with a search aimed at the disagreement)"""
+        if tier != "quick":
+            return []
+        try:
+            cases = list(self.gen("thorough", rng))
+        except Exception:
+            return []
+        rng.shuffle(cases)
+        return cases[:self.escalate_cap]
 
     def run(self, case):
         raise NotImplementedError
